@@ -53,7 +53,10 @@ ROOT_OPTS = [["mindepth", "1"], ["maxdepth", "2"], ["depth", "1"], ["dfs"], ["bf
 def condition(draw, depth=2):
     if depth <= 0 or draw(st.sampled_from(range(3))) == 0:
         return list(draw(st.sampled_from(ATOMS)))
-    kind = draw(st.sampled_from(["and", "or", "not", "paren", "curly"]))
+    kind = draw(st.sampled_from(["and", "or", "not", "paren", "curly", "nota"]))
+    if kind == "nota":
+        # a leading NOT right before a condition that may carry an infix `not` of its own
+        return ["not"] + list(draw(st.sampled_from([a for a in ATOMS if "(" not in a])))
     if kind in ("and", "or"):
         return draw(condition(depth - 1)) + [kind] + draw(condition(depth - 1))
     if kind == "not":
